@@ -55,6 +55,18 @@ def all_rpc_cases():
                 "fs": "memory",
                 "leader": {"map_projection": level != "1.1"},
             }
+    # line numbers that start again half way / trailing lines without a number
+    for level, lines, numbering in (("1.5", 9, "restart"), ("1.1", 8, "zeros"), ("1.5", 7, "zeros"), ("1.1", 10, "restart")):
+        for rpc in range(1, lines + 2):
+            yield {
+                "level": level,
+                "images": [{"lines": lines, "pixels": 2, "line_numbers": numbering}],
+                "vseed": lines + 40,
+                "rpc1": 1,
+                "rpc2": rpc,
+                "fs": "memory",
+                "leader": {"map_projection": level != "1.1"},
+            }
     # acquisitions that run over midnight UTC (on 31 December: into the next year)
     for level, lines, doy in (("1.1", 8, 365), ("1.5", 6, 59), ("1.1", 6, 366)):
         for rpc in range(1, lines + 2):
